@@ -484,6 +484,10 @@ struct Sess {
       }
     };
     cmp(got, "session_matrix");
+    // third observation: the exported constructor called directly. It is a library call of its own (it advances whatever the
+    // construction counts across calls), so only sessions with an odd alignment seed make it: observing must not be the
+    // only way state moves
+    if ((sc.align & 1) == 0) return;
     int extra = 0;
     long got2 = shp_ldpc_constructor(k, r, sc.cfg.N1, sc.cfg.seed, rows.data(), esis.data(), (long)rows.size(), &extra);
     if (got2 >= 0) { cx.counters["probe_constructor"]++; cmp(got2, "constructor"); }
